@@ -321,6 +321,28 @@ it is not a refusal (the call ends with a plain error and — for `Leave` — no
 def replyAct (leave : Bool) (c : Nat) (cs : List RChild) : Option Act :=
   if (findError cs).isSome then some (if leave then .leaveError c else .joinError c) else none
 
+/-! ### Registration with the multiplexer (`muc.HandleClient`), configuration of the Client
+
+The LTS takes for granted that every muc#user presence and every normal message with a muc#user
+payload reaches `Client.HandlePresence` / `Client.HandleMessage`, and that the callback fields are
+read when the stanza is handled.  `HandleInvite` / `HandleUserPresence` are exported fields: an
+application may assign them before or after it hands `muc.HandleClient(h)` to `mux.New`, so what is
+registered must not depend on them.  Tied by a probe fact over every configuration. -/
+
+/-- what `HandleClient` registers the Client for — (available presence, unavailable presence, normal
+message) with a muc#user payload — given which callbacks are set at registration time: everything,
+always -/
+def registeredFor (_invite _upres : Bool) : Bool × Bool × Bool := (true, true, true)
+
+def regConfigs : List (String × Bool × Bool) :=
+  [nsClient, nsServer, nsAccept].flatMap fun ns =>
+    [(ns, false, false), (ns, true, false), (ns, false, true), (ns, true, true)]
+
+/-- callbacks delivered for a message with children `cs` when the invitation callback is assigned
+(`set = true`) by the time the message is handled — whether it was assigned before or after the
+registration does not enter -/
+def invitesDelivered (set : Bool) (cs : List Child) : Nat := if set then inviteCalls cs else 0
+
 def Act.isJoinStartOf (c : Nat) : Act → Bool
   | .joinStart c' _ => c' == c
   | _ => false
